@@ -214,7 +214,11 @@ func genC15(r *core.Rand, run int) *MuxScenario {
 		sp.PathVar = "cat.jpg"
 		sp.Msgs = []MsgSpec{{Size: r.Pick(1, 63, 64, 65, 200, 700), Seed: r.U64() >> 8}}
 		sc.Knobs.MaxRecv = r.Pick(64, 100, 256)
-		sp.Handler.Steps = [][]HStep{{{Op: "recvall"}, {Op: "sendall"}}, {{Op: "recvall"}, {Op: "waitctx"}, {Op: "sendall"}}}[r.Intn(2)]
+		sp.Handler.Steps = [][]HStep{
+			{{Op: "recvall"}, {Op: "sendall"}}, {{Op: "recvall"}, {Op: "waitctx"}, {Op: "sendall"}},
+			// ... or through the io.Reader of AsHTTPBodyReader, piece by piece
+			{{Op: "bodyreader"}, {Op: "sendall"}}, {{Op: "bodyreader"}, {Op: "waitctx"}, {Op: "sendall"}},
+		}[r.Intn(4)]
 		sp.Handler.Resps = sp.Handler.Resps[:1]
 		sp.PingPong = false
 	}
@@ -358,6 +362,17 @@ func oracleCancel(mr *muxRun, rs *reqState, cnt *[core.NumCounters]int) *Violati
 			if c.Start > rs.ctxCancelAt && c.Err == nil {
 				return fail("stream-call-after-cancel-succeeded", "a %s that started at step %d, after the context had been cancelled at step %d, returned nil", map[byte]string{'R': "Recv", 'S': "Send"}[c.Kind], c.Start, rs.ctxCancelAt)
 			}
+		}
+	}
+	// an upload read through AsHTTPBodyReader never ends cleanly short of its
+	// last byte
+	if hasOp(sp.Handler, "bodyreader") && l.RecvEOF && l.BodyReadErr == nil {
+		total := 0
+		for _, m := range sp.Msgs {
+			total += m.Size
+		}
+		if len(l.BodyRead) < total {
+			return fail("abort-as-eof", "the reader obtained from AsHTTPBodyReader reported a clean end of the upload after %d of %d bytes; the client had gone away", len(l.BodyRead), total)
 		}
 	}
 	// the call that was blocked at the abort is released with an error
